@@ -97,6 +97,10 @@ macro_rules! impl_current_for {
 
         impl$(<$($generic $( : $trait_tt1 $( + $trait_tt2)*)?),+>)? $struct_name$(<$($generic),+>)? {
             /// Init the current.
+            // never inlined: a caller that is itself a coroutine frame may continue on another
+            // thread after a context switch, and an inlined body lets the compiler reuse the
+            // thread-local's address it computed before the switch (the other thread's).
+            #[inline(never)]
             pub(crate) fn init_current(current: &Self) {
                 $name.with(|s| unsafe {
                     s.as_ptr()
@@ -115,6 +119,7 @@ macro_rules! impl_current_for {
             /// Get the current if has.
             #[must_use]
             #[allow(unreachable_pub)]
+            #[inline(never)]
             pub fn current<'current>() -> Option<&'current Self> {
                 $name.try_with(|s| unsafe {
                     s.as_ptr()
@@ -134,6 +139,7 @@ macro_rules! impl_current_for {
             }
 
             /// Clean the current.
+            #[inline(never)]
             pub(crate) fn clean_current() {
                 _ = $name.try_with(|s| unsafe {
                     _ = s.as_ptr()
